@@ -647,9 +647,10 @@ impl Laid {
     fn ct_reported(&self, n: usize) -> bool {
         self.last[n].map(|(_, o)| o.margins_can_collapse_through).unwrap_or(false)
     }
-    /// the known class: margins_can_collapse_through reported although the used height is positive
+    /// the known class: a block container (compute_inner's test; a leaf's own test includes its height) reports
+    /// margins_can_collapse_through although its used height is positive
     fn in_known_class(&self, n: usize) -> bool {
-        self.ct_reported(n) && self.t.nodes[n].unrounded.size.height > 0.0
+        self.is_block_container(n) && self.ct_reported(n) && self.t.nodes[n].unrounded.size.height > 0.0
     }
     fn subtree_margins_nonneg(&self, n: usize) -> bool {
         let s = &self.t.nodes[n].style;
